@@ -30,6 +30,9 @@ class Layout(object):
         self.RW3 = self.TINY_RO + 2
         self.TINY_HOLE = self.RW3 + 0x40
         self.RW4 = self.TINY_HOLE + 1
+        # ... then a 2-byte page that is mapped and writable but NOT readable, and 0x40 more writable bytes
+        self.TINY_WO = self.RW4 + 0x40
+        self.RW5 = self.TINY_WO + 2
 
 SUPPORTED_OPS = set("""+ * ^ & | - >> << a>> >>> <<< / % udiv umod sdiv smod ** parity cntleadzeros
 cnttrailzeros == <u <=u <s <=s FLAG_EQ FLAG_EQ_AND FLAG_EQ_CMP FLAG_SIGN_SUB FLAG_SIGN_ADD FLAG_ADD_CF
@@ -264,6 +267,10 @@ def instr_pool(spec, rng, want, flow=False, max_tries=None):
             continue
         if not ir_ops_supported(lifter, instr):
             continue
+        if reads_pc_register(spec, lifter, instr):
+            # e.g. MeP 'LDC Rn, $pc': the value of the PC *register* inside a block is a back-end artefact
+            # (see PC_REGS); same reason as REPEAT above
+            continue
         near = accesses_near(spec, lifter, loc_db, instr)
         if near is None:
             continue
@@ -272,6 +279,24 @@ def instr_pool(spec, rng, want, flow=False, max_tries=None):
         seen[name] = seen.get(name, 0) + 1
         out.append((raw[:instr.l], str(instr), name))
     return out
+
+
+def reads_pc_register(spec, lifter, instr):
+    """does the IR of @instr read the program-counter register identifier (not a constant address)?"""
+    ircfg = lifter.new_ircfg()
+    try:
+        lifter.add_instr_to_ircfg(instr, ircfg)
+    except Exception:
+        return True
+    for blk in ircfg.blocks.values():
+        for ab in blk:
+            for dst, src in ab.items():
+                reads = set(src.get_r(mem_read=True))
+                if dst.is_mem():
+                    reads |= set(dst.ptr.get_r(mem_read=True))
+                if any(r.is_id() and (r.name == spec.pc_name or r.name in PC_REGS) for r in reads):
+                    return True
+    return False
 
 
 def accesses_near(spec, lifter, loc_db, instr):
@@ -340,10 +365,12 @@ def interesting_values(rng, bits, L):
     return [v & m for v in pool]
 
 
-def make_prog(spec, rng, pool, n_instr, with_loop=False, fault_bias=0.3, mode=None, soft_int=False):
+def make_prog(spec, rng, pool, n_instr, with_loop=False, fault_bias=0.3, mode=None, soft_int=False,
+              selfloop=False):
     """mode: None (registers mostly inside the rw page, fault_bias of them on interesting values),
     "straddle" (every pointer a few bytes before a page boundary: rw->ro, ro->hole, hole->rw2),
-    "tiny" (every pointer a few bytes before a 2-byte read-only page or a 1-byte hole that sit between
+    "tiny" (every pointer a few bytes before a 2-byte read-only page, a 1-byte hole or a 2-byte
+    write-only page that sit between
     writable regions: a wide access covers writable / not writable / writable bytes),
     "split" (every register independently on a valid rw address, a read-only address or a hole:
     instructions that read one place and write another get one good and one bad operand)"""
@@ -358,6 +385,12 @@ def make_prog(spec, rng, pool, n_instr, with_loop=False, fault_bias=0.3, mode=No
         for _ in range(rng.choice([1, 1, 2])):
             body.insert(rng.randrange(0, len(body) + 1), (si, "<software interrupt>", "SOFTINT"))
         n_instr = len(body)
+    if selfloop and spec.family.startswith("x86"):
+        # an instruction that branches to its own address: LOOP $ (counts (E/R)CX down in place)
+        body.insert(rng.randrange(0, len(body) + 1), (b"\xe2\xfe", "LOOP       $", "SELFLOOP"))
+        n_instr = len(body)
+    else:
+        selfloop = False
     code = b""
     off = CODE
     loop_at = rng.randrange(0, max(1, n_instr - 1)) if with_loop else None
@@ -404,7 +437,8 @@ def make_prog(spec, rng, pool, n_instr, with_loop=False, fault_bias=0.3, mode=No
             p.regs[r] = (rng.choice(ends) - rng.choice([1, 1, 2, 3, 3, 5, 7])) & m
     elif mode == "tiny":
         for r in spec.gprs:
-            p.regs[r] = (rng.choice([L.TINY_RO, L.TINY_HOLE, L.TINY_HOLE]) - rng.choice([0, 1, 1, 2, 2, 3, 5, 6])) & m
+            p.regs[r] = (rng.choice([L.TINY_RO, L.TINY_HOLE, L.TINY_HOLE, L.TINY_WO]) -
+                         rng.choice([0, 1, 1, 2, 2, 3, 5, 6])) & m
     elif mode == "split":
         for r in spec.gprs:
             k = rng.random()
@@ -425,7 +459,7 @@ def make_prog(spec, rng, pool, n_instr, with_loop=False, fault_bias=0.3, mode=No
         p.regs[spec.sp_name] = (rng.choice([L.RW3, L.RW4]) + rng.choice([1, 2, 3, 6])) & m
     if mode == "split" and rng.random() < 0.3:
         p.regs[spec.sp_name] = (L.HOLE + 0x800) & m
-    if p.loop is not None:
+    if p.loop is not None or selfloop:
         p.regs[spec.counter] = rng.choice([1, 2, 3, 3, 4, 6])
     fill = bytes(rng.getrandbits(8) for _ in range(PAGE))
     p.pages = [(CODE, PAGE_READ | PAGE_WRITE, code + b"\x00" * (PAGE - len(code)), "code"),
@@ -434,7 +468,9 @@ def make_prog(spec, rng, pool, n_instr, with_loop=False, fault_bias=0.3, mode=No
                (DATA_RW2, PAGE_READ | PAGE_WRITE, fill[7:] + fill[:7], "rw2"),
                (L.TINY_RO, PAGE_READ, fill[11:13], "tiny_ro"),
                (L.RW3, PAGE_READ | PAGE_WRITE, fill[20:20 + 0x40], "rw3"),
-               (L.RW4, PAGE_READ | PAGE_WRITE, fill[90:90 + 0x40], "rw4")]
+               (L.RW4, PAGE_READ | PAGE_WRITE, fill[90:90 + 0x40], "rw4"),
+               (L.TINY_WO, PAGE_WRITE, fill[17:19], "tiny_wo"),
+               (L.RW5, PAGE_READ | PAGE_WRITE, fill[160:160 + 0x40], "rw5")]
     p.holes = [(L.HOLE, PAGE), (L.TINY_HOLE, 1)]
     return p
 
